@@ -1124,14 +1124,14 @@ def c18_jobs(tier, seed):
         tnames = ['ready-in-pending', 'unwrap-nested-pending', 'inline', 'pending-in-ready', 'ends-with-close-tag']
     for name in tnames:
         tpl = STRUCT[name]
-        vs = variants(tpl, budget, 2, rnd, 1 if tier == 'quick' else 6)
+        vs = variants(tpl, budget, 2, rnd, 1 if tier == 'quick' else 3)
         for sizes in vs:
             inst = instantiate(tpl, sizes)
-            for (ds, de) in (POOL[1:] if tier != 'quick' else [POOL[1], POOL[6], POOL[8]]):
+            for (ds, de) in ([POOL[1], POOL[2], POOL[4], POOL[6], POOL[7], POOL[8], POOL[10]] if tier != 'quick' else [POOL[1], POOL[6], POOL[8]]):
                 nm = names_pool[(len(jobs)) % len(names_pool)]
                 jobs.append(dict(harness='c18_spelling', label=f'{name} holes={sizes} ds={ds!r} de={de!r} names={nm["t"]}/{nm["m"]}',
                                  params=dict(tpl=inst, ds=ds, de=de, names=nm)))
-            for (a, b, nl) in ([(1, 1, 1), (2, 2, 2)] if tier == 'quick' else [(1, 1, 1), (2, 2, 2), (3, 3, 2), (1, 2, 1), (2, 1, 2), (3, 1, 3), (4, 4, 1)]):
+            for (a, b, nl) in ([(1, 1, 1), (2, 2, 2)] if tier == 'quick' else [(1, 1, 1), (2, 2, 2), (3, 3, 2), (1, 2, 1), (4, 4, 1)]):
                 jobs.append(dict(harness='c18_spelling', label=f'{name} holes={sizes} symbolic |ds|={a}B |de|={b}B |names|={nl}B',
                                  params=dict(tpl=inst, ds_len=a, de_len=b, name_len=nl)))
     return jobs
